@@ -23,6 +23,8 @@ def make_search(rng, model, vocab, t, pool=None, small=False, allow_last=True, a
             alts = [segs[i]] + [vocab.value(t, i, rng, pool=pool or gen.SAFE_NAME_POOL, small=small) for _ in range(k - 1)]
             if rng.random() < 0.15:
                 alts.append(rng.choice(["zz", "*"]))
+            if rng.random() < 0.08:
+                alts += ["zz", "yy"]          # two untypable alternatives (adjacent after sorting)
             if i == n - 1 and aliases and rng.random() < 0.3:
                 alts.append(rng.choice(aliases))
             rng.shuffle(alts)
@@ -95,7 +97,7 @@ def make_search(rng, model, vocab, t, pool=None, small=False, allow_last=True, a
             else:
                 k, v = rng.choice(longest.keys), "~" + rng.choice(["a", "s", "*"])
             fl.append("%s=%s" % (k, v))
-        s += "?" + "&".join(fl)
+        s += "?" + ("?" if (len(fl) > 1 and rng.random() < 0.3) else "&").join(fl)
         info["ops"].append("filter")
     if allow_malformed and rng.random() < 0.05:
         m = rng.random()
